@@ -74,6 +74,17 @@ fn alphabet(n: usize, tier: Tier) -> Vec<Dev> {
             s.variants[i].detailed_message = Some(format!("d{} é", i));
             true
         }));
+        // empty literals are still literals: Some("")
+        d.push(dev(format!("v{}.message=\"\" + detailed_message=\"\"", i), &[&format!("msg{}", i), &format!("det{}", i)], move |s| {
+            s.variants[i].message = Some(String::new());
+            s.variants[i].detailed_message = Some(String::new());
+            true
+        }));
+        d.push(dev(format!("v{}.message=\"tab\" + detailed_message=\"\"", i), &[&format!("msg{}", i), &format!("det{}", i)], move |s| {
+            s.variants[i].message = Some("tab".into());
+            s.variants[i].detailed_message = Some(String::new());
+            true
+        }));
         d.push(dev(format!("v{}.detailed_message", i), &[&format!("det{}", i)], move |s| {
             s.variants[i].detailed_message = Some(format!("d{} é", i));
             true
